@@ -136,17 +136,18 @@ Definition mem_init_area (start : Z) (data : list Z) : MM unit :=
 Definition mem_init_zero (start length : Z) : MM unit :=
   fun s => if length >? alloc_limit then (Panic PAlloc, s) else mem_init_area start (zeros length) s.
 
+Fixpoint prot_go (section_start prot : Z) (l : list area) : option (list area) :=
+  match l with
+  | nil => None
+  | a :: l' => if section_start =? a_start a then Some (set_area_access a prot :: l')
+               else match prot_go section_start prot l' with Some r => Some (a :: r) | None => None end
+  end.
+
 Definition mem_prot (section_start prot : Z) : MM unit :=
   fun s =>
     if negb (prot <=? 7) then (Err EFatal, s)
     else
-      let fix go (l : list area) : option (list area) :=
-        match l with
-        | nil => None
-        | a :: l' => if section_start =? a_start a then Some (set_area_access a prot :: l')
-                     else match go l' with Some r => Some (a :: r) | None => None end
-        end in
-      match go (mem s) with
+      match prot_go section_start prot (mem s) with
       | Some m' => (Ok tt, set_mem s m')
       | None => (Err EOther, s)
       end.
